@@ -408,13 +408,13 @@ fn c08_k2_same_boot() {
     assert_eq!(lc.start_time, s);
     assert_eq!(lc.nr_msgs, n + 1);
     assert_eq!(lc.max_timestamp_us, if t > maxts { t } else { maxts });
+    // the rest of the summary S(b) only as far as later steps need it (representation details such as the exact minimum or
+    // the exact last reception time are not part of the C08 statement and are deliberately not pinned down)
+    assert!(lc.min_timestamp_us <= lc.max_timestamp_us);
+    assert!(lc.last_reception_time >= s && lc.last_reception_time <= s + lc.max_timestamp_us);
     if !had_resume {
-        // (a record flagged as resume ignores smaller timestamps for its minimum until the flag is dropped again;
-        //  the minimum is not part of the C08 statement)
-        assert_eq!(lc.min_timestamp_us, if t < mints { t } else { mints });
         assert!(lc.resume_lc.is_none());
     }
-    assert_eq!(lc.last_reception_time, s + t);
     if lc.max_timestamp_us > 0 {
         assert_eq!(lc.end_time(), s + lc.max_timestamp_us);
     }
